@@ -208,7 +208,10 @@ def run(ctx, rep):
                         c = {"raw": ex}
                     cfg = c.get("cfg", {})
                     w = cfg.get("weights") or []
-                    eff = sum(1 for x in w if x is None or x > 0) if w else len(cfg.get("ops", []))
+                    wnum = [1.0 if x is None else float(x) for x in w]
+                    # operators that are drawn with non-negligible probability (a weight of 0.001 next to 3 makes the rejection
+                    # loop of node mutation practically endless: thousands of draws)
+                    eff = sum(1 for x in wnum if x > 0.01 * max(wnum)) if wnum and max(wnum) > 0 else len(cfg.get("ops", []))
                     size = len(c.get("parent") or []) or (c.get("size") or 0)
                     unequal = c.get("op") == "crossover" and c.get("parent2") is not None and len(c["parent2"]) != len(c.get("parent") or [])
                     tp1_single = cfg.get("tp") in (0, 0.0)
